@@ -145,61 +145,74 @@ def rule_sql(program, ctx):
             # delete by id read from an author-constrained SELECT
             okid = False
 
-            def from_rows(name, seen=()):
-                """every binding of `name` is a row (element) of `result`"""
-                if name in seen:
+            def derives(e, seen=(), bound=()):
+                """the value of e is (part of) a row of `result`, or a collection of such parts - by any chain of local assignments,
+                loop / comprehension targets, attribute or item access and row-wrapping calls (map, list, sorted, NT._make, .first()…)"""
+                if isinstance(e, ast.Constant) and e.value is None:
                     return True
-                seen = seen + (name,)
-                binds = stores_of(fn, name)
-                if not binds:
-                    return False
-                okb = True
-                for d in binds:
-                    if isinstance(d, ast.For):
-                        it = d.iter
-                        if dotted(it) == "result":
-                            continue
-                        if isinstance(it, ast.Name):
-                            okb = okb and elems_from_rows(it.id, seen)
-                            continue
+                if isinstance(e, ast.Name):
+                    if e.id == "result" or e.id in bound:
+                        return True
+                    if e.id in seen:
+                        return True
+                    binds = stores_of(fn, e.id)
+                    if not binds:
                         return False
-                    v = d.value if isinstance(d, ast.Assign) else None
-                    if isinstance(v, ast.Constant) and v.value is None:
-                        continue
-                    if isinstance(v, ast.Call) and dotted(v.func) == "result.first":
-                        continue
-                    if isinstance(v, ast.Name):
-                        okb = okb and from_rows(v.id, seen)
-                        continue
-                    if isinstance(v, ast.Subscript) and isinstance(v.value, ast.Name):
-                        okb = okb and from_rows(v.value.id, seen)
-                        continue
+                    seen2 = seen + (e.id,)
+                    for d in binds:
+                        if isinstance(d, (ast.For, ast.AsyncFor)):
+                            if not derives(d.iter, seen2, bound):
+                                return False
+                        elif isinstance(d, ast.Assign):
+                            if isinstance(d.value, (ast.List, ast.Set)) and not d.value.elts:
+                                continue
+                            if isinstance(d.value, ast.Call) and call_name(d.value) in ("list", "set") and not d.value.args:
+                                continue
+                            if not derives(d.value, seen2, bound):
+                                return False
+                        else:
+                            return False
+                    # a list that is filled by append/add: every element derives
+                    for cc in walk_no_nested(fn):
+                        if isinstance(cc, ast.Call) and isinstance(cc.func, ast.Attribute) and dotted(cc.func.value) == e.id:
+                            if cc.func.attr in ("append", "add") and cc.args and not derives(cc.args[0], seen2, bound):
+                                return False
+                            if cc.func.attr in ("extend", "update") and cc.args and not derives(cc.args[0], seen2, bound):
+                                return False
+                            if cc.func.attr == "insert":
+                                return False
+                    return True
+                if isinstance(e, (ast.Subscript, ast.Attribute)):
+                    return derives(e.value, seen, bound)
+                if isinstance(e, ast.Starred):
+                    return derives(e.value, seen, bound)
+                if isinstance(e, (ast.ListComp, ast.SetComp, ast.GeneratorExp)):
+                    b2 = bound
+                    for g in e.generators:
+                        if not derives(g.iter, seen, b2):
+                            return False
+                        b2 = b2 + tuple(n.id for n in ast.walk(g.target) if isinstance(n, ast.Name))
+                    return derives(e.elt, seen, b2)
+                if isinstance(e, ast.Call):
+                    nm = call_name(e)
+                    if nm in ("map",) and len(e.args) == 2:
+                        return derives(e.args[1], seen, bound)
+                    if nm in ("list", "tuple", "sorted", "iter", "reversed", "set") and e.args:
+                        return derives(e.args[0], seen, bound)
+                    if nm.endswith("._make") and e.args:
+                        return derives(e.args[0], seen, bound)
+                    if isinstance(e.func, ast.Attribute) and e.func.attr in ("first", "fetchall", "all", "fetchone", "scalars", "mappings") and not e.args:
+                        return derives(e.func.value, seen, bound)
+                    if e.args and all(isinstance(a, ast.Starred) for a in e.args) and isinstance(e.func, ast.Name) and e.func.id[:1].isupper():
+                        return all(derives(a, seen, bound) for a in e.args)
                     return False
-                return okb
+                return False
+
+            def from_rows(name, seen=()):
+                return derives(ast.Name(id=name, ctx=ast.Load()))
 
             def elems_from_rows(lname, seen):
-                srcs = []
-                for d in stores_of(fn, lname):
-                    v = d.value if isinstance(d, ast.Assign) else None
-                    if isinstance(v, ast.List) and not v.elts:
-                        continue
-                    if isinstance(v, (ast.ListComp, ast.SetComp)) and len(v.generators) == 1 and dotted(v.generators[0].iter) == "result":
-                        e = v.elt
-                        tgt = v.generators[0].target
-                        if (isinstance(e, ast.Subscript) and isinstance(tgt, ast.Name) and dotted(e.value) == tgt.id) or (isinstance(e, ast.Name) and e.id in {n.id for n in ast.walk(tgt) if isinstance(n, ast.Name)}):
-                            continue
-                    return False
-                for cc in walk_no_nested(fn):
-                    if isinstance(cc, ast.Call) and isinstance(cc.func, ast.Attribute) and cc.func.attr in ("append", "add") and dotted(cc.func.value) == lname:
-                        a = cc.args[0]
-                        if isinstance(a, ast.Name) and from_rows(a.id, seen):
-                            continue
-                        if isinstance(a, ast.Subscript) and isinstance(a.value, ast.Name) and from_rows(a.value.id, seen):
-                            continue
-                        return False
-                    if isinstance(cc, ast.Call) and isinstance(cc.func, ast.Attribute) and cc.func.attr in ("extend", "update", "insert") and dotted(cc.func.value) == lname:
-                        return False
-                return True
+                return derives(ast.Name(id=lname, ctx=ast.Load()))
 
             for cj in conj:
                 idvar = None
